@@ -230,7 +230,7 @@ prop("C06",
      trace=("Trace_Codec", "Trace_Codec.cfg"),
      required=["accept", "reject", "via:attr", "via:soft", "via:wrap", "cls:int", "cls:frac", "cls:exp", "cls:null",
                "cls:true", "cls:str", "cls:time", "cls:b64", "cls:b64nc", "cls:arr", "cls:obj", "full:accept",
-               "full:reject", "shape:ident", "shape:list", "shape:null", "shape:identbadtype"],
+               "full:reject", "shape:ident", "shape:list", "shape:null", "shape:identbadtype", "col:accept"],
      level_text="The decode table (kind x nullable x JSON literal class -> allowed outcomes) is a TLA+ operator; "
                 "integers are (anchor, offset) pairs so that every width boundary +-2 up to 2^70 and the 8/16-bit "
                 "ranges are exact in TLC's 32-bit arithmetic. TLC checks an intended decoder against it (unique "
